@@ -7,7 +7,10 @@
 (* Moore-Penrose conditions, rank), SVD (U W V' = A, orthonormal factors),      *)
 (* Cholesky of N = A'A + I as SymMat / BandMat / CovMat (L D L' solves N x = y),*)
 (* that every non-conforming operand pair raises an exception, and the scale    *)
-(* law pinv(sA) = pinv(A)/s, inv(sA) = inv(A)/s, rank(sA) = rank(A).            *)
+(* law pinv(sA) = pinv(A)/s, inv(sA) = inv(A)/s, rank(sA) = rank(A). The laws   *)
+(* of the definitions (Laws below: (AB)' = B'A' ...) are also evaluated on the   *)
+(* lazily transposed operand classes TransMat / TransVec: trans(B)*trans(A),     *)
+(* trans(A)*A, A*trans(A), sums, trans(A)*v, v*trans(A), trans(v)*A, trans(v)*v. *)
 EXTENDS ExactLA, TLC, Json
 CONSTANTS Keep, Seed
 Vals == -2..2
